@@ -486,6 +486,10 @@ func (s *Stor) imageLocked(r *rng.R) *Stor {
 		} else {
 			tail := f.Data[f.Synced:]
 			pol := TailPolicy(r.Intn(5))
+			if len(tail) == 0 && !f.Open && pol >= TailCutZeros {
+				// nothing was in flight for this file: a crash cannot grow it
+				pol = TailKept
+			}
 			c := 0
 			if len(tail) > 0 {
 				c = r.Intn(len(tail) + 1)
